@@ -656,6 +656,20 @@ Theorem C17_formats_for_every_declaration : forall e,
 Proof. exact formats_universal. Qed.
 Print Assumptions C17_formats_for_every_declaration.
 
+Theorem C17_suffix_sites_for_every_declaration : forall e fl,
+  msg_sites (state_msg e fl) = map (fun s => component_name e (bs s)) ["State"; "Keys"; "Data"; "Status"]%string
+  /\ msg_sites (event_msg e) = map (fun s => component_name e (bs s)) ["Event"; "Keys"; "EventType"]%string
+  /\ m_name (keys_msg e) = component_name e (bs "Keys") /\ m_name (data_msg e) = component_name e (bs "Data")
+  /\ m_name (event_type_msg e) = component_name e (bs "EventType")
+  /\ refs_of (publish_components e) = map (fun s => component_name e (bs s)) ["Keys"; "EventType"; "Data"; "Status"]%string
+  /\ lits_ok "acceptState" ["State"; "Keys"; "Data"; "Status"] = true
+  /\ lits_ok "acceptEvent" ["Event"; "Keys"; "EventType"] = true
+  /\ lits_ok "acceptKeys" ["Keys"] = true /\ lits_ok "acceptData" ["Data"] = true
+  /\ lits_ok "acceptEventOneof" ["EventType"] = true
+  /\ lits_ok "acceptPublishTopic" ["Keys"; "EventType"; "Data"; "Status"] = true.
+Proof. exact suffix_sites_universal. Qed.
+Print Assumptions C17_suffix_sites_for_every_declaration.
+
 Theorem C17_strcase_calls_for_every_declaration : forall e s,
   component_name e s = apply_fn (the_fn "componentName") (e_name e) ++ apply_fn (the_fn "componentName") s
   /\ full_name e = e_pkg e ++ [46] ++ apply_fn (the_fn "fullName") (e_name e)
